@@ -649,6 +649,19 @@ func (fr *Frame) evalCall(e *CExpr, env *Env, hint *Sort) *GVal {
 			return tv(Eq(ex.heapGet(env.st, key, fs), ex.heapGet(env.old, key, fs)))
 		}
 	}
+	switch e.Name {
+	case "specObjPut":
+		m := arg(0, nil)
+		if mi := w.MapInfoOfSort(m.S); mi != nil {
+			return tv(mapPut(w, m, arg(1, mi.K), arg(2, mi.V)))
+		}
+	case "emptyObj":
+		if obj := ex.p.pkg.Pkg.Scope().Lookup("specEmptyObj"); obj != nil {
+			mt := obj.Type().(*types.Signature).Results().At(0).Type()
+			mi := w.MapInfoOfSort(w.SortOf(mt))
+			return tv(w.MkMap(mi, ConstArray(SArray(mi.K, SBool), TFalse), ConstArray(SArray(mi.K, mi.V), VNil), IntLit(0), TFalse))
+		}
+	}
 	// contract macro
 	if m, ok := ex.p.cs.Macros[e.Name]; ok {
 		if len(m.Params) != len(e.Args) {
